@@ -212,6 +212,107 @@ theorem tourLen_no_overflow (M : Matrix) (mult : Int) (I : Inst) (x : List Nat)
   unfold LIMIT at hub
   omega
 
+/-- **the constructor accepts every matrix of the property's domain**: square, n ≥ 2, non-negative, zero
+diagonal, a positive off-diagonal entry in every row, bounds within the documented limits — and then the
+selected storage type holds every entry (the copy check cannot fire). -/
+theorem mkInstance_accepts (lbG : Int) (M : Matrix) (mult : Int) (n : Nat) (hn : 2 ≤ n) (hsq : Square M n)
+    (hnn : ∀ r ∈ M, ∀ v ∈ r, 0 ≤ v) (hdiag : ∀ i < n, entry M i i = 0)
+    (hpos : ∀ i < n, ∃ j < n, j ≠ i ∧ 0 < entry M i j)
+    (hlb : 0 ≤ lbG ∧ lbG ≤ LIMIT) (hnear : sumNear M n ≤ LIMIT)
+    (hub : max lbG (sumNear M n) ≤ sumFar M n ∧ sumFar M n ≤ LIMIT + 1)
+    (hmult : 1 ≤ mult ∧ mult ≤ 1000000000) (hlim : mult * max (sumFar M n) n ≤ 9223372036854775807) :
+    (mkInstance lbG M mult).isSome = true := by
+  obtain ⟨hlen, hrows⟩ := hsq
+  have hentry_nn : ∀ i j, 0 ≤ entry M i j := by
+    intro i j
+    unfold entry
+    by_cases hi : i < M.length
+    · by_cases hj : j < (M[i]).length
+      · simp only [List.getD_eq_getElem?_getD, List.getElem?_eq_getElem hi, Option.getD_some,
+          List.getElem?_eq_getElem hj]
+        exact hnn _ (List.getElem_mem hi) _ (List.getElem_mem hj)
+      · simp [List.getD_eq_getElem?_getD, List.getElem?_eq_getElem hi,
+          List.getElem?_eq_none (Nat.le_of_not_lt hj)]
+    · simp [List.getD_eq_getElem?_getD, List.getElem?_eq_none (Nat.le_of_not_lt hi)]
+  have hfarpos : ∀ i < n, 0 < rowFar M n i := by
+    intro i hi
+    obtain ⟨j, hj, hji, hp⟩ := hpos i hi
+    have := entry_le_rowFar M n i j hj (Ne.symm hji)
+    omega
+  have hnear_nn : 0 ≤ sumNear M n := by
+    unfold sumNear
+    apply sum_map_nonneg
+    intro i _
+    unfold rowNear
+    exact foldNear_nonneg _ _ _ _ (by omega) (fun j _ => hentry_nn i j)
+  -- every entry is at most the farthest-neighbour sum
+  have hfar_le : ∀ i < n, rowFar M n i ≤ sumFar M n := by
+    intro i hi
+    unfold sumFar
+    have hsplit : ∀ (l : List Nat), i ∈ l → (∀ k ∈ l, 0 ≤ rowFar M n k) → rowFar M n i ≤ (l.map (rowFar M n)).sum := by
+      intro l
+      induction l with
+      | nil => intro h; simp at h
+      | cons a t ih =>
+        intro hm hall
+        simp only [List.map_cons, List.sum_cons]
+        have ha := hall a (by simp)
+        have ht : 0 ≤ (t.map (rowFar M n)).sum := sum_map_nonneg t _ (fun k hk => hall k (by simp [hk]))
+        simp only [List.mem_cons] at hm
+        rcases hm with rfl | hm
+        · omega
+        · have := ih hm (fun k hk => hall k (by simp [hk])); omega
+    exact hsplit (List.range n) (List.mem_range.mpr hi)
+      (fun k hk => by have := hfarpos k (List.mem_range.mp hk); omega)
+  have hent_le : ∀ r ∈ M, ∀ v ∈ r, v ≤ sumFar M n := by
+    intro r hr v hv
+    obtain ⟨i, hi, rfl⟩ := List.mem_iff_getElem.mp hr
+    obtain ⟨j, hj, rfl⟩ := List.mem_iff_getElem.mp hv
+    have hrl : (M[i]).length = n := hrows _ (List.getElem_mem hi)
+    rw [← entry_mem M i j hi hj]
+    by_cases hij : i = j
+    · subst hij
+      rw [hdiag i (by omega)]
+      have := hfarpos i (by omega); have := hfar_le i (by omega); omega
+    · have := entry_le_rowFar M n i j (by omega) hij
+      have := hfar_le i (by omega)
+      omega
+  have hubpos : 0 < sumFar M n := by
+    have := hfarpos 0 (by omega); have := hfar_le 0 (by omega); omega
+  obtain ⟨t, ht⟩ := dtypeFor_complete (-(mult * max (sumFar M n) n)) (mult * max (sumFar M n) n)
+    (by have : 0 ≤ mult * max (sumFar M n) n := Int.mul_nonneg (by omega) (by omega); omega)
+    (by omega) hlim
+  have hts := dtypeFor_sound _ _ t ht
+  have hmx : sumFar M n ≤ mult * max (sumFar M n) ↑n := by
+    have h1 : sumFar M n ≤ max (sumFar M n) ↑n := by omega
+    have h2 : max (sumFar M n) ↑n ≤ mult * max (sumFar M n) ↑n := by
+      have : 0 ≤ max (sumFar M n) ↑n := by omega
+      have h3 := Int.mul_le_mul_of_nonneg_right hmult.1 this
+      omega
+    omega
+  have hwrap : M.map (·.map t.wrap) = M := by
+    have h1 : M.map (·.map t.wrap) = M.map id := by
+      apply List.map_congr_left
+      intro r hr
+      have h2 : r.map t.wrap = r.map id := by
+        apply List.map_congr_left
+        intro v hv
+        apply wrap_id
+        · have := hnn r hr v hv; omega
+        · have := hent_le r hr v hv; omega
+      simpa using h2
+    simpa using h1
+  unfold mkInstance
+  simp only [hlen]
+  rw [if_neg (by omega), if_neg (by omega)]
+  rw [if_neg (by simp; intro r hr; exact hrows r hr)]
+  rw [if_neg (by simp; intro r hr v hv; exact hnn r hr v hv)]
+  rw [if_neg (by simp; intro i hi; exact hdiag i hi)]
+  rw [if_neg (by simp; intro i hi; exact hfarpos i hi)]
+  rw [if_neg (by omega), if_neg (by omega), if_neg (by omega)]
+  simp only [ht, hwrap]
+  simp
+
 /-! ### non-vacuity: a concrete asymmetric instance meets the hypotheses -/
 example : (mkInstance 0 [[0, 3, 200], [1, 0, 5], [7, 2, 0]] 1).isSome = true := by decide
 example : IsPerm [2, 0, 1] 3 := by unfold IsPerm; decide
